@@ -366,6 +366,17 @@ def w_rotations(ctx, rng, i):
         Kx = np.array([[0, -ax[2], ax[1]], [ax[2], 0, -ax[0]], [-ax[1], ax[0], 0]])
         Rm = np.eye(3) + np.sin(ang) * Kx + (1 - np.cos(ang)) * (Kx @ Kx)
         R(Rm).axis_and_angle_of_rotation()
+        # the same matrix as a single-precision array / typed in with a few decimals (orthonormal to that precision only): the
+        # object is the rotation it was given - it reports that matrix, its axis and its angle
+        for given in (Rm.astype(np.float32), np.round(Rm, int(rng.integers(4, 8)))):
+            try:
+                rg = R(given)
+                ctx.tap("rotation_from_a_limited_precision_matrix", "calls"); ctx.tap("rotation_from_a_limited_precision_matrix", "checked")
+                if _amax(np.asarray(rg.rotation_matrix, dtype=float) - np.asarray(given, dtype=float)) > 1e-3:
+                    ctx.fail("rotation_constructor_builds_another_rotation_than_the_matrix_it_was_given", cls="Rotation", mech=str(np.asarray(given).dtype), err=_amax(np.asarray(rg.rotation_matrix, dtype=float) - np.asarray(given, dtype=float)))
+                rg.axis_and_angle_of_rotation()
+            except ValueError:
+                ctx.bump("limited_precision_rotation_matrix_refused")
         R(np.array([[0, 0, 1], [1, 0, 0], [0, 1, 0]], dtype=float) if rng.random() < 0.5 else np.array([[0, 1, 0], [0, 0, 1], [1, 0, 0]], dtype=float)).axis_and_angle_of_rotation()
         # quaternion parameters round-trip through any template rotation - also one written with integer entries
         templates = [R(np.eye(3, dtype=int)), R(np.array([[0, -1, 0], [1, 0, 0], [0, 0, 1]])), R(np.array([[0, 0, 1], [1, 0, 0], [0, 1, 0]])), rr, R.init_identity(3)]
